@@ -268,10 +268,15 @@ pub fn v1_bytes_opt(input: &[u8], full: bool, copy: bool) -> Value {
 }
 
 pub fn v1_str(input: &str, full: bool) -> Value {
+    v1_str_opt(input, full, true)
+}
+
+pub fn v1_str_opt(input: &str, full: bool, copy: bool) -> Value {
     let r = guard(|| {
-        let mut scratch = input.to_string();
+        let mut scratch = if copy { input.to_string() } else { String::new() };
         let (mut out, owned) = {
-            let result = v1::Header::try_from(scratch.as_str());
+            let src: &str = if copy { scratch.as_str() } else { input };
+            let result = v1::Header::try_from(src);
             let inc = result.is_incomplete();
             let cmp = result.is_complete();
             match &result {
@@ -609,13 +614,19 @@ pub fn auto_bytes(input: &[u8]) -> Value {
 
 /// The byte entry points on a buffer of several GiB, parsed in place (the text entry points
 /// would have to validate all of it as UTF-8 first and are not run).
-pub fn huge_entry_points(buf: &[u8]) -> Value {
+pub fn huge_entry_points(buf: &[u8], text: bool) -> Value {
     let na = json!({"k": "na"});
+    // the text entry points only when asked for (the whole buffer has to be validated as UTF-8
+    // first, which takes seconds)
+    let (v1s, v1fh, v1fa) = match (text, if text { std::str::from_utf8(buf).ok() } else { None }) {
+        (true, Some(s)) => (v1_str_opt(s, true, false), v1_from_str_header(s, false), v1_from_str_addresses(s)),
+        _ => (na.clone(), na.clone(), na),
+    };
     json!({
         "v1b": v1_bytes_opt(buf, true, false),
-        "v1s": na.clone(),
-        "v1fh": na.clone(),
-        "v1fa": na,
+        "v1s": v1s,
+        "v1fh": v1fh,
+        "v1fa": v1fa,
         "v2": v2_bytes_opt(buf, true, false),
         "auto": auto_bytes(buf),
     })
